@@ -15,12 +15,14 @@
 (*      ReadWriteComplete  read/readv/write/writev return the full count, or the count moved when the stream ended,    *)
 (*                         or -1 with the error                                                                        *)
 (*      RecvSendBounds     recv/send return 1..n, 0 only at end of stream (or n = 0)                                    *)
-(*      NoHangPastTimeout  a Hang event (the harness found a call that did not return) is not accepted                 *)
+(*      NoHangPastTimeout  a Hang event (the harness found a call that did not return) is not accepted; a call with a short    *)
+(*                         stream timeout returns within timeout + 1.5 s even though its partner withholds the data           *)
 EXTENDS SockStreamOps, FiniteSets, TLC, Json, IOUtils
 Tr == ndJsonDeserialize(IOEnv.TRACE)
 P == 32749
 ETIMEDOUT == 110
 EAGAIN == 11
+SLACK == 1500000
 EINTR == 4
 Min(a, b) == IF a < b THEN a ELSE b
 
@@ -91,6 +93,9 @@ Resp == /\ Ev("Resp") /\ R.t \in DOMAIN pend
               \/ /\ p.st = "again" /\ R.r = -1                              \* the wait for readiness failed
                  /\ \/ R.en = ETIMEDOUT /\ p.to >= 0 /\ R.dt >= p.to          \* only with a timeout, only after it elapsed
                     \/ R.en # ETIMEDOUT /\ <<t, R.en>> \in intr               \* or interrupted by another thread
+           \* NoHangPastTimeout: a call with a (short) stream timeout is back soon after it (the harness's partners withhold data until
+           \* the call has returned; SLACK is a scheduling allowance of the same kind as the harness's Hang threshold, not a latency claim)
+           /\ (p.to >= 0 /\ p.to < 1000000) => R.dt <= p.to + SLACK
            /\ R.m = p.moved
            /\ p.rw = 0 => (R.ck = Wsum(p.f, p.off0, p.moved) /\ R.clean = 1)  \* the user's buffer holds exactly the bytes moved
            \* RecvSendBounds
